@@ -15,6 +15,7 @@ every admissible supplied value of `log` / `sqrt` / `exp`.
 * T18.4  `order_only`, `order_only_sep`, `order_only_lm`, `order_only_openai`
 * T18.5  `cov_psd_preserved_real`, `cov_psd_preserved_rat`, `cma_coefficients`, `cma_cov_psd`,
          `cma_tell_valid`, `cma_history_valid`, `sep_cov_nonneg`, `sep_cov_pos`
+         `cma_cmu_clamped`, `sep_cmu_clamped` (the clamp `cμ ≤ 1 − c1`, unconditional)
 * T18.6  `sigma_pos_real`, `sigma_pos`, `sep_tell_valid`, `lm_tell_sigma_pos` (and `cma_tell_valid`)
 * T18.7  `reset_initial`, `reset_forgets`
 * T18.8  `resample_record`, `openai_noise_matches`
@@ -755,6 +756,34 @@ theorem lm_tell_sigma_pos (c : LmCfg) (st st' : LmState c.n) (sols zs : List (Ve
     rw [h1]
     simp only [lmCore]
     exact mul_pos hsig he
+
+/-! ## the clamp of the rank-μ learning rate -/
+
+/-- T18.5, clamp: with `cμ = min(1 − c1, …)` as in `_calc_strat_params`, the coefficient
+`1 − c1 − cμ` of the old covariance is non-negative for **every** dimension and every weight vector
+(no hypothesis at all: this is what the `min` is for) -/
+theorem cma_cmu_clamped (n : Nat) (w : List Rat) :
+    0 ≤ 1 - (cmaParams n w).c1 - (cmaParams n w).cmu := by
+  have h : (cmaParams n w).cmu ≤ 1 - (cmaParams n w).c1 := by
+    simp only [cmaParams]; exact rmin_le_left _ _
+  linarith
+
+/-- the same for sep-CMA-ES (`cmu_sep = min(1 − c1_sep, …)`), for every supplied `√n` -/
+theorem sep_cmu_clamped (n : Nat) (w : List Rat) (sN : Rat) :
+    0 ≤ 1 - (sepParams n w sN).c1 - (sepParams n w sN).cmu := by
+  have h : (sepParams n w sN).cmu ≤ 1 - (sepParams n w sN).c1 := by
+    simp only [sepParams]; exact rmin_le_left _ _
+  linarith
+
+/-- the clamp is not idle: in dimension 1 with 50 equally weighted parents (`mueff = 50`) the
+unclamped rate `2(mueff − 2 + 1/mueff)/((n+2)² + mueff)` exceeds `1 − c1`, i.e. without the `min`
+the old covariance would get a negative coefficient; with it the coefficient is exactly `0` -/
+theorem nonvacuous_clamp :
+    let w : List Rat := List.replicate 50 (1 / 50)
+    let p := cmaParams 1 w
+    p.mueff = 50 ∧ 1 - p.c1 < 2 * (p.mueff - 2 + 1 / p.mueff) / ((1 + 2) * (1 + 2) + p.mueff)
+      ∧ 1 - p.c1 - p.cmu = 0 := by
+  decide +kernel
 
 /-! ## non-vacuity: concrete instances satisfying the hypotheses above -/
 
